@@ -381,6 +381,9 @@ def run(case):
                 if old not in src:
                     continue            # synthesised .notdef keeps its name
                 adm = admissible_final(old, rules[old])
+                if old == ".notdef":
+                    # glyph 0 keeps its name whatever the lib says (OpenType / CFF require it)
+                    adm = {".notdef"}
                 base_ok = new in adm
                 suffixed = any(new.startswith(a + ".") and new[len(a) + 1:].isdigit() for a in adm)
                 if not (base_ok or suffixed):
